@@ -413,6 +413,48 @@ def run(ctx):
                               "a path through one loop iteration returns to the loop head without evaluating the %s handler (blocks %s): events can starve" % (nm, wit),
                               sites=["%s:%d" % (poll.file, line)])
 
+    # ---------- (f) arrival order of the event queue -------------------------------------------------------------
+    ctx.rule("EVENT-ORDER", "UnixTerminal.events_queue: poll appends at the back and hands out the front; a body that takes events through poll and gives them "
+                            "back re-queues them at the front, oldest last (push_front over the reversed FIFO collection)", floor=5)
+    from ..flow import expr
+    n_ops = 0
+    for b in prog.bodies:
+        if not (b.file or "").endswith("unix.rs"):
+            continue
+        is_poll = b.path == poll.path or (b.closure_root or "") == poll.path
+        for bb, t in b.calls():
+            nm = callee_name(t) or ""
+            if not re.search(r"VecDeque::<T, A>::|VecDeque<T, A> as std::iter::Extend", nm) or not t["args"]:
+                continue
+            if not re.search(r"\.events_queue$", arg_place(b, t, 0) or ""):
+                continue
+            op = nm.split("::")[-1]
+            n_ops += 1
+            if op in ("is_empty", "len", "iter", "front", "back"):
+                ctx.instance("EVENT-ORDER", {"fn": b.path, "op": op, "ok": True})
+                continue
+            if is_poll:
+                ok = op in ("push_back", "pop_front", "extend")
+                ctx.instance("EVENT-ORDER", {"fn": b.path, "op": op, "ok": ok})
+                if not ok:
+                    ctx.violation("EVENT-ORDER", b.path, op, "poll uses %s on the event queue: decoded events must be appended at the back and delivered from the front" % op,
+                                  sites=["%s:%d" % (b.file, t["line"])])
+                continue
+            # outside poll: events previously taken through poll are given back
+            if op == "push_front":
+                e = expr(b, t["args"][1])
+                rev = bool(re.search(r"(Rev::next|Iterator::next)\(.*Iterator::rev\(.*into_iter\(", e)) or bool(re.search(r"Vec::pop\(", e))
+                ctx.instance("EVENT-ORDER", {"fn": b.path, "op": op, "element": e[:140], "reversed_fifo": rev, "ok": rev})
+                if not rev:
+                    ctx.violation("EVENT-ORDER", b.path, "push_front-forward", "%s gives intercepted events back with push_front while iterating oldest first: they are delivered "
+                                  "newest first (%s)" % (b.path, e[:120]), sites=["%s:%d" % (b.file, t["line"])])
+            else:
+                ctx.instance("EVENT-ORDER", {"fn": b.path, "op": op, "ok": False})
+                ctx.violation("EVENT-ORDER", b.path, op, "%s puts events it took from the front of the queue back with %s: events still queued (decoded later) overtake them"
+                              % (b.path, op), sites=["%s:%d" % (b.file, t["line"])])
+    if n_ops == 0:
+        ctx.anchor("EVENT-ORDER", "events_queue")
+
 
 def loop_heads_reaching(cfg, start):
     heads = set(cfg.loops().keys())
